@@ -579,41 +579,48 @@ func tablesC05(c *Ctx) {
 		c.Unresolved(rule, "keyid.KeyID is a struct")
 		return
 	}
-	reqVar := tbOnlyVar(c, rule, "package-level map[uint16][]string of keyid (required keys)", p, func(t types.Type) bool {
-		m, ok := t.(*types.Map)
-		if !ok || !tbIsBasic(m.Key(), types.Uint16) {
-			return false
-		}
-		s, ok := m.Elem().(*types.Slice)
-		return ok && tbIsBasic(s.Elem(), types.String)
-	})
-	chkVar := tbOnlyVar(c, rule, "package-level map[uint16]func(*KeyID) error of keyid (sanity checkers)", p, func(t types.Type) bool {
-		m, ok := t.(*types.Map)
-		if !ok || !tbIsBasic(m.Key(), types.Uint16) {
-			return false
-		}
-		sig, ok := m.Elem().(*types.Signature)
+	// the two version tables, as finite maps (a map literal or a switch function: finitemap.go)
+	w := c.w
+	isVer := func(t types.Type) bool { return tbIsBasic(t.Underlying(), types.Uint16) }
+	isKeyList := func(t types.Type) bool {
+		s, ok := t.Underlying().(*types.Slice)
+		return ok && tbIsBasic(s.Elem().Underlying(), types.String)
+	}
+	isChecker := func(t types.Type) bool {
+		sig, ok := t.Underlying().(*types.Signature)
 		if !ok || sig.Params().Len() != 1 || sig.Results().Len() != 1 || !isErrorType(sig.Results().At(0).Type()) {
 			return false
 		}
 		ptr, ok := sig.Params().At(0).Type().(*types.Pointer)
 		return ok && types.Identical(ptr.Elem(), kid)
-	})
+	}
+	one := func(ms []*finiteMap, role string) *finiteMap {
+		// only tables that the codec actually consults
+		var used []*finiteMap
+		for _, m := range ms {
+			if len(w.fmLookups(m)) > 0 {
+				used = append(used, m)
+			}
+		}
+		if len(used) != 1 {
+			if len(used) > 1 {
+				role += " (ambiguous: " + strconv.Itoa(len(used)) + " candidates)"
+			}
+			c.Unresolved(rule, role)
+			return nil
+		}
+		return used[0]
+	}
+	reqVar := one(w.finiteMaps("keyid", isVer, isKeyList), "package-level map[uint16][]string of keyid (required keys)")
+	chkVar := one(w.finiteMaps("keyid", isVer, isChecker), "package-level map[uint16]func(*KeyID) error of keyid (sanity checkers)")
 	if reqVar == nil || chkVar == nil {
 		return
 	}
-	reqEntries, ok1 := mapLit(p, tbVarInit(p, reqVar))
-	chkEntries, ok2 := mapLit(p, tbVarInit(p, chkVar))
-	if !ok1 {
-		c.Unresolved(rule, "composite literal with constant keys initialising "+reqVar.Name())
-		return
+	reqEntries, chkEntries := reqVar.Entries, chkVar.Entries
+	for _, m := range []*finiteMap{reqVar, chkVar} {
+		key := "table " + m.Name + "|defined by its literal only"
+		c.Check(m.Frozen, rule, key, w.Pos(m.Pos), "the table is only read after the package initialiser built it", "the table is modified (or escapes) outside its literal")
 	}
-	if !ok2 {
-		c.Unresolved(rule, "composite literal with constant keys initialising "+chkVar.Name())
-		return
-	}
-	tbTableFrozen(c, rule, p, reqVar)
-	tbTableFrozen(c, rule, p, chkVar)
 
 	// JSON names of KeyID
 	fields := tbJSONFields(kid)
@@ -637,7 +644,7 @@ func tablesC05(c *Ctx) {
 			continue
 		}
 		reqVersions[ver] = true
-		keys, ok := stringSliceLit(p, e.Val)
+		keys, ok := w.stringList(e.Vals[0], 0)
 		if !ok {
 			c.Und(rule, fmt.Sprintf("required[%d]|list of constant strings", ver), c.w.Pos(e.Pos), "the required-key list is not a literal of constant strings")
 			continue
@@ -679,7 +686,7 @@ func tablesC05(c *Ctx) {
 	}
 	// version 1 equals the reference set
 	if !haveV1 {
-		c.Bad(rule, "required[1]|present", c.w.Pos(reqVar.Pos()), "the required-keys table has no entry for version 1")
+		c.Bad(rule, "required[1]|present", c.w.Pos(reqVar.Pos), "the required-keys table has no entry for version 1")
 	} else {
 		have := map[string]bool{}
 		for _, k := range v1 {
@@ -688,11 +695,11 @@ func tablesC05(c *Ctx) {
 		ref := map[string]bool{}
 		for _, k := range tbKeyIDv1Reference {
 			ref[k] = true
-			c.Check(have[k], rule, fmt.Sprintf("required[1] reference key %q|listed", k), c.w.Pos(reqVar.Pos()),
+			c.Check(have[k], rule, fmt.Sprintf("required[1] reference key %q|listed", k), c.w.Pos(reqVar.Pos),
 				"listed", fmt.Sprintf("reference key %q is missing from the version-1 required list: Unmarshal accepts a KeyID without it", k))
 		}
 		for _, k := range v1 {
-			c.Check(ref[k], rule, fmt.Sprintf("required[1] listed key %q|in the reference set", k), c.w.Pos(reqVar.Pos()),
+			c.Check(ref[k], rule, fmt.Sprintf("required[1] listed key %q|in the reference set", k), c.w.Pos(reqVar.Pos),
 				"in the reference set", fmt.Sprintf("key %q is required for version 1 but is not in the reference set %v", k, tbKeyIDv1Reference))
 		}
 	}
@@ -719,11 +726,11 @@ func tablesC05(c *Ctx) {
 		key := fmt.Sprintf("version %d|in both tables", v)
 		switch {
 		case reqVersions[v] && chkVersions[v]:
-			c.Ok(rule, key, c.w.Pos(reqVar.Pos()), fmt.Sprintf("version %d has required keys and a sanity checker", v))
+			c.Ok(rule, key, c.w.Pos(reqVar.Pos), fmt.Sprintf("version %d has required keys and a sanity checker", v))
 		case chkVersions[v]:
-			c.Bad(rule, key, c.w.Pos(chkVar.Pos()), fmt.Sprintf("version %d has a sanity checker (%s) but no required-key list (%s): Marshal accepts a version that Unmarshal rejects", v, chkVar.Name(), reqVar.Name()))
+			c.Bad(rule, key, c.w.Pos(chkVar.Pos), fmt.Sprintf("version %d has a sanity checker (%s) but no required-key list (%s): Marshal accepts a version that Unmarshal rejects", v, chkVar.Name, reqVar.Name))
 		default:
-			c.Bad(rule, key, c.w.Pos(reqVar.Pos()), fmt.Sprintf("version %d has a required-key list (%s) but no sanity checker (%s): Unmarshal and Marshal reject it after the key check", v, reqVar.Name(), chkVar.Name()))
+			c.Bad(rule, key, c.w.Pos(reqVar.Pos), fmt.Sprintf("version %d has a required-key list (%s) but no sanity checker (%s): Unmarshal and Marshal reject it after the key check", v, reqVar.Name, chkVar.Name))
 		}
 	}
 	// DefaultVersion
@@ -733,9 +740,9 @@ func tablesC05(c *Ctx) {
 		c.Und(rule, "DefaultVersion|integer", c.w.Pos(dv.Pos()), "DefaultVersion is not an integer constant")
 	} else {
 		c.Check(reqVersions[n], rule, "DefaultVersion|key of the required-keys table", c.w.Pos(dv.Pos()),
-			fmt.Sprintf("DefaultVersion = %d is a key of %s", n, reqVar.Name()), fmt.Sprintf("DefaultVersion = %d is not a key of %s: keyid.New() yields a KeyID that Unmarshal rejects", n, reqVar.Name()))
+			fmt.Sprintf("DefaultVersion = %d is a key of %s", n, reqVar.Name), fmt.Sprintf("DefaultVersion = %d is not a key of %s: keyid.New() yields a KeyID that Unmarshal rejects", n, reqVar.Name))
 		c.Check(chkVersions[n], rule, "DefaultVersion|key of the sanity-checker table", c.w.Pos(dv.Pos()),
-			fmt.Sprintf("DefaultVersion = %d is a key of %s", n, chkVar.Name()), fmt.Sprintf("DefaultVersion = %d is not a key of %s: keyid.New() yields a KeyID that Marshal rejects", n, chkVar.Name()))
+			fmt.Sprintf("DefaultVersion = %d is a key of %s", n, chkVar.Name), fmt.Sprintf("DefaultVersion = %d is not a key of %s: keyid.New() yields a KeyID that Marshal rejects", n, chkVar.Name))
 	}
 	// the floor guards against an enumerator that finds (almost) nothing; the exact content of the version-1 list is the
 	// business of the reference-set obligations above, so the floor leaves slack below the 11 keys of today
@@ -2098,7 +2105,7 @@ func tablesC20(c *Ctx) {
 	if srv != nil {
 		if st, ok := srv.Underlying().(*types.Struct); ok {
 			for i := 0; i < st.NumFields(); i++ {
-				arr, ok := st.Field(i).Type().(*types.Array)
+				arr, ok := st.Field(i).Type().Underlying().(*types.Array)
 				if !ok {
 					continue
 				}
